@@ -47,6 +47,16 @@ def check(prog: Program, tier: str) -> Result:
             res.bad("R5.2", fn.loc(stmt), fq, text[:160], f"{f.what}: module-level object {f.origin[7:]} is mutated at run time; later calls depend on earlier ones")
         else:
             res.ok("R5.1", fn.loc(stmt), fq, text[:160], what, trivial=not _touches_param(own, fn))
+    # ---------------- R5.4 identity across caches
+    seen_id = set()
+    for f in own.identity_findings:
+        if (f.fn.fq, norm(f.node)) in seen_id:
+            continue
+        seen_id.add((f.fn.fq, norm(f.node)))
+        res.bad("R5.4", f.fn.loc(f.node), f.fn.fq, norm(f.node)[:160],
+                f"objects from two different caches ({f.origin}) are compared by identity / membership ({f.what}): the caches have different sizes, "
+                "so after one of them evicted and re-created its entry the same source yields distinct objects and the answer depends on the call history")
+    res.ok("R5.4", "pyrefact/", "package", "identity comparisons across cache origins", f"{len(seen_id)} found", trivial=True)
     # ---------------- R5.2 global statements, mutable defaults
     for fn in prog.funcs.values():
         for n in walk_own(fn.node):
@@ -67,6 +77,8 @@ def check(prog: Program, tier: str) -> Result:
     if prog.root != os.path.abspath(FIXTURE):
         fx = Ownership(Program(FIXTURE))
         origins = {f.origin.split(":")[0] for f in fx.unique_findings()}
+        if not fx.identity_findings:
+            res.errors.append("positive control for R5.4 (identity across caches) not reported")
         if not {"cache", "module"} <= origins:
             res.errors.append(f"positive control not reported (origins found: {sorted(origins)}): the ownership analysis lost its teeth")
         else:
@@ -171,6 +183,7 @@ VARIANTS = [
             "_MEMO = {}\n\n\ndef _list_words(name: str) -> Sequence[str]:\n    _MEMO[name] = True\n", "R5.2"),
     Variant("stdout-not-restored", "FIRE", "main", "        finally:\n            sys.stdout = sys_stdout\n", "        finally:\n            pass\n", "R5.3"),
     Variant("sys-path-not-popped", "FIRE", "tracing", "        finally:\n            sys.path.pop()\n", "        finally:\n            pass\n", "R5.3"),
+    Variant("identity-across-caches", "FIRE", "tracing", "            if core.match_template(trace_result.ast, template):", "            if trace_result.ast in template:", "R5.4"),
     Variant("explicit-constructor-instead-of-copy", "SILENT", "fixes", "            new_node = copy.copy(node)\n            new_node.lineno = scope.lineno - 1",
             "            new_node = ast.Assign(targets=node.targets, value=node.value) if isinstance(node, ast.Assign) else copy.copy(node)\n            new_node.lineno = scope.lineno - 1"),
     Variant("mutate-list-built-from-cached-nodes", "SILENT", "fixes",
